@@ -858,7 +858,20 @@ func appInputX(r *ref.SplitMix64, i int) (in []byte, frames []byte, known bool) 
 }
 
 // appInput generates an input for the applications.
+// magicStarts are the first bytes of common container and compression formats: an
+// input that happens to begin like one of them is still a byte stream to be framed.
+var magicStarts = [][]byte{{0x1f, 0x8b}, {0x1f, 0x8b, 0x08, 0x00}, []byte("PK\x03\x04"), []byte("BZh9"), {0xfd, '7', 'z', 'X', 'Z', 0x00}, {0x28, 0xb5, 0x2f, 0xfd},
+	{0xef, 0xbb, 0xbf}, {0xff, 0xfe}, {0xfe, 0xff}, []byte("RIFF"), []byte("#!rtcm\n"), {0x7f, 'E', 'L', 'F'}, []byte("%PDF-"), {0x00, 0x00, 0x01, 0x00}}
+
 func appInput(r *ref.SplitMix64, i int) []byte {
+	if i%29 == 13 {
+		// begins like a compressed file, a text file with a byte-order mark, an archive
+		in := append([]byte(nil), magicStarts[r.Intn(len(magicStarts))]...)
+		for j := r.Range(1, 5); j > 0; j-- {
+			in = append(in, gen.RandFrame(r).Bytes...)
+		}
+		return in
+	}
 	if i%23 == 11 || i%23 == 17 || i%23 == 14 || i%23 == 5 || i%23 == 8 {
 		in, _, _ := appInputX(r, i)
 		return in
